@@ -85,6 +85,7 @@ pub enum FT {
     F64,
     F32x2,
     I16,
+    U8x2,
 }
 
 #[derive(Clone, Debug, Serialize, Deserialize)]
@@ -99,13 +100,13 @@ pub struct ChunkCase {
 trait WF: Frame + std::fmt::Debug {
     fn at(i: usize) -> Self;
     /// per channel (value as f64, tolerance)
-    fn close(self, frame: Self, w: f64) -> Result<(), String>;
+    fn close(self, frame: Self, w: f64, rect: bool) -> Result<(), String>;
 }
 impl WF for f64 {
     fn at(i: usize) -> Self {
         0.1 + ((i * 37) % 101) as f64 / 128.0 - 0.4
     }
-    fn close(self, frame: Self, w: f64) -> Result<(), String> {
+    fn close(self, frame: Self, w: f64, rect: bool) -> Result<(), String> {
         let e = frame * w;
         if (self - e).abs() <= 1e-12 * e.abs().max(1e-3) {
             Ok(())
@@ -118,7 +119,7 @@ impl WF for [f32; 2] {
     fn at(i: usize) -> Self {
         [((i * 37) % 101) as f32 / 128.0 - 0.4, 0.5 - ((i * 11) % 53) as f32 / 64.0]
     }
-    fn close(self, frame: Self, w: f64) -> Result<(), String> {
+    fn close(self, frame: Self, w: f64, rect: bool) -> Result<(), String> {
         for c in 0..2 {
             let e = frame[c] as f64 * w;
             if (self[c] as f64 - e).abs() > 1e-6 * e.abs().max(1e-3) {
@@ -128,18 +129,38 @@ impl WF for [f32; 2] {
         Ok(())
     }
 }
+/// integer frames: the window value is produced in the format's Float (f32 here) and applied with mul_amp, i.e. the signed
+/// amplitude is multiplied in f32 and truncated toward zero. The Rectangle window's value is exactly 1, which leaves the sample unchanged;
+/// otherwise the result lies between the truncated products for w -+ 3e-7 (f32 window value and f32 product rounding).
+fn int_close(got: i64, amp: i64, w: f64, rect: bool) -> Result<(), String> {
+    if rect {
+        return if got == amp { Ok(()) } else { Err(format!("amplitude {} vs frame amplitude {} x window value 1 (must be unchanged)", got, amp)) };
+    }
+    let (a, b) = (amp as f64 * (w - 3e-7).max(0.0), amp as f64 * (w + 3e-7).min(1.0));
+    let (lo, hi) = (a.min(b).trunc() as i64, a.max(b).trunc() as i64);
+    if got >= lo && got <= hi {
+        Ok(())
+    } else {
+        Err(format!("amplitude {} vs frame amplitude {} x window {} truncated = [{}, {}]", got, amp, w, lo, hi))
+    }
+}
 impl WF for i16 {
     fn at(i: usize) -> Self {
-        (((i * 7919) % 2003) as i32 - 1001) as i16 * 30
+        (((i * 7919) % 2003) as i32 - 1001) as i16 * 30 + (i % 7) as i16
     }
-    fn close(self, frame: Self, w: f64) -> Result<(), String> {
-        let e = frame as f64 * w;
-        // f32 window value and f32 product, truncated: +-1 LSB (+ f32 rounding of a 15-bit product)
-        if (self as f64 - e).abs() <= 1.0 + e.abs() * 2e-7 {
-            Ok(())
-        } else {
-            Err(format!("{} vs frame {} x window {} = {}", self, frame, w, e))
+    fn close(self, frame: Self, w: f64, rect: bool) -> Result<(), String> {
+        int_close(self as i64, frame as i64, w, rect)
+    }
+}
+impl WF for [u8; 2] {
+    fn at(i: usize) -> Self {
+        [((i * 37) % 256) as u8, (255 - (i * 101) % 256) as u8]
+    }
+    fn close(self, frame: Self, w: f64, rect: bool) -> Result<(), String> {
+        for c in 0..2 {
+            int_close(self[c] as i64 - 128, frame[c] as i64 - 128, w, rect).map_err(|e| format!("channel {}: {}", c, e))?;
         }
+        Ok(())
     }
 }
 
@@ -168,7 +189,7 @@ fn chunks_typed<F: WF, W: WindowFn<f64, Output = f64> + Clone>(c: &ChunkCase, ha
                     let p = i as f64 / (c.bin - 1) as f64;
                     let w = if hann { hann_ref(p) } else { 1.0 };
                     // the last window position may have wrapped to phase 0: same value for both windows
-                    got[i].close(frames[k.checked_mul(c.hop).and_then(|x| x.checked_add(i)).ok_or("harness: index overflow")?], w).map_err(|e| format!("chunk {} frame {}: {}", k, i, e))?;
+                    got[i].close(frames[k.checked_mul(c.hop).and_then(|x| x.checked_add(i)).ok_or("harness: index overflow")?], w, !hann).map_err(|e| format!("chunk {} frame {}: {}", k, i, e))?;
                 }
                 k += 1;
             }
@@ -188,7 +209,7 @@ fn chunks_typed<F: WF, W: WindowFn<f64, Output = f64> + Clone>(c: &ChunkCase, ha
                 for i in 0..c.bin {
                     let p = i as f64 / (c.bin - 1) as f64;
                     let w = if hann { hann_ref(p) } else { 1.0 };
-                    got[i].close(frames[j * c.hop + i], w).map_err(|e| format!("{} chunk {} frame {}: {}", how, j, i, e))?;
+                    got[i].close(frames[j * c.hop + i], w, !hann).map_err(|e| format!("{} chunk {} frame {}: {}", how, j, i, e))?;
                 }
                 Ok(())
             }
@@ -225,16 +246,18 @@ pub fn check_chunks(c: &ChunkCase, st: &mut Stats) -> CheckResult {
         (FT::F32x2, false) => chunks_typed::<[f32; 2], Rectangle>(c, false),
         (FT::I16, true) => chunks_typed::<i16, Hann>(c, true),
         (FT::I16, false) => chunks_typed::<i16, Rectangle>(c, false),
+        (FT::U8x2, true) => chunks_typed::<[u8; 2], Hann>(c, true),
+        (FT::U8x2, false) => chunks_typed::<[u8; 2], Rectangle>(c, false),
     }
 }
 
 pub fn run(ctx: &mut Ctx) {
     ctx.set_rule(
         "window function: phases k/2^m for every m <= 10 exhaustively plus random phases in [0,1], f64 and f32 phase types; Window::new(n) for n in 2..=64 and {100, 1000, 4096}; \
-         windower: every (L, bin, hop) with L in 0..=40, bin in 2..=12, hop in 1..=14 x {Hann, Rectangle} x {f64, [f32;2], i16} plus random larger triples; non-trivial: phase not 0/0.5/1; \
+         windower: every (L, bin, hop) with L in 0..=40, bin in 2..=12, hop in 1..=14 x {Hann, Rectangle} x {f64, [f32;2], i16, [u8;2]} plus random larger triples; non-trivial: phase not 0/0.5/1; \
          Hann window with n >= 3; (L - bin) not a multiple of hop, L == bin, hop >= bin, or Hann with bin >= 3",
     );
-    ctx.assume("reference for the Hann shape is sin^2(pi p) (an identity of 0.5*(1-cos 2 pi p) evaluated through a different libm function); tolerances 1e-12 (f64), 2e-7 (f32), 1e-9*n for the n-point window, +-1 LSB for integer frames");
+    ctx.assume("reference for the Hann shape is sin^2(pi p) (an identity of 0.5*(1-cos 2 pi p) evaluated through a different libm function); tolerances 1e-12 (f64), 2e-7 (f32), 1e-9*n for the n-point window, integer frames: unchanged under a window value of exactly 1 (Rectangle), otherwise within the truncated products of the signed amplitude with w -+ 3e-7");
     ctx.assume("size_hint() is taken before EVERY next(): lower <= remaining <= upper (the Iterator contract; nothing stronger is demanded)");
     for c in ["L < bin", "L == bin", "hop >= bin", "(L - bin) not a multiple of hop", "hop near usize::MAX"] {
         ctx.require_class(c);
@@ -258,7 +281,7 @@ pub fn run(ctx: &mut Ctx) {
         for bin in 2..=12 {
             for hop in 1..=14 {
                 for hann in [true, false] {
-                    for ft in [FT::F64, FT::F32x2, FT::I16] {
+                    for ft in [FT::F64, FT::F32x2, FT::I16, FT::U8x2] {
                         cases.push(ChunkCase { l, bin, hop, hann, ft });
                     }
                 }
@@ -277,7 +300,7 @@ pub fn run(ctx: &mut Ctx) {
     }
     let n = cases.len() as u64;
     ctx.par_enumerate("windower/all-small-triples", true, n, move |i| cases[i as usize].clone(), check_chunks);
-    let strat = (0usize..600, 2usize..80, 1usize..100, any::<bool>(), 0usize..3).prop_map(|(l, bin, hop, hann, f)| ChunkCase { l, bin, hop, hann, ft: [FT::F64, FT::F32x2, FT::I16][f] });
+    let strat = (0usize..600, 2usize..80, 1usize..100, any::<bool>(), 0usize..4).prop_map(|(l, bin, hop, hann, f)| ChunkCase { l, bin, hop, hann, ft: [FT::F64, FT::F32x2, FT::I16, FT::U8x2][f] });
     ctx.prop("windower/random-triples", ctx.pick(20_000, 200_000), strat, check_chunks);
     let _ = <f64 as Sample>::EQUILIBRIUM;
 }
